@@ -67,8 +67,14 @@ static void serve(char *line) {
     size_t rl; char *rb = dec(tok[3], &rl, &nul);
     int nrb = atoi(tok[4]), osz = atoi(tok[5]);
     char *out = calloc(1, osz > 0 ? (size_t)osz : 1);
+    char *_crypt_crypt_gensalt_ra(const char *, unsigned long, const char *, int);
+    char *_crypt_crypt_gensalt(const char *, unsigned long, const char *, int);
     errno = 0;
-    char *r = _crypt_crypt_gensalt_rn(pf, count, rb, nrb, out, osz);
+    /* two reserved sizes select the other entry points, so that each one is compared with itself evaluated alone
+       (a tree whose crypt_gensalt_ra retries with a larger buffer is not crypt_gensalt_rn with 192 bytes) */
+    char *r = osz == -2000000001 ? _crypt_crypt_gensalt_ra(pf, count, rb, nrb)
+            : osz == -2000000002 ? _crypt_crypt_gensalt(pf, count, rb, nrb)
+            : _crypt_crypt_gensalt_rn(pf, count, rb, nrb, out, osz);
     if (r) reply_str(r); else reply_fmt("F", errno);
   } else if (tok[0][0] == 'C' && nt == 2) {
     char *st = dec(tok[1], &l, &nul);
